@@ -182,6 +182,68 @@ def gen_boundaries(rnd, versions=None, micro_opts=(None,), with_version=False, f
                         yield Case(content_for(rnd, mode, n), kw, 'boundary')
 
 
+def gen_multipart_boundaries(rnd, count):
+    """multi-part contents (incl. several hanzi / kanji / byte parts that cannot be merged) whose total bit
+    count sits exactly on, one below and one above a capacity; the last part is numeric and is sized to hit it"""
+    made = 0
+    while made < count:
+        v = rnd.choice([1, 1, 2, 3, 5, 8, 9, 10, 11, 26, 27, 28, 40][: 9 if made % 3 else 13])
+        e = rnd.choice(levels_of(v))
+        cap = _tables()[(v, e)]
+        parts, used, prev = [], 0, None
+        for _ in range(rnd.randint(2, 7)):
+            m = rnd.choice([m for m in (13, 13, 8, 4, 2) if m != prev])
+            n = rnd.randint(1, 6)
+            bits = header_bits(v, m) + bits_for(m, n)
+            if used + bits + header_bits(v, 1) + 4 > cap:
+                break
+            parts.append((content_for(rnd, m, n), m))
+            used += bits
+            prev = m
+            # a numeric spacer keeps equal modes from being adjacent (and from being merged)
+            if rnd.random() < 0.5 and used + header_bits(v, 1) + 4 + 40 < cap:
+                parts.append((content_for(rnd, 1, 1), 1))
+                used += header_bits(v, 1) + 4
+                prev = 1
+        if not parts or prev == 1:
+            continue
+        room = cap - used - header_bits(v, 1)
+        nmax = min(room * 3 // 10 + 3, (1 << cci(v, 1)) - 1)
+        while nmax > 0 and bits_for(1, nmax) > room:
+            nmax -= 1
+        if nmax < 1:
+            continue
+        for n in (nmax, nmax + 1):
+            kw = dict(error=LEVEL_NAME[e], mask=rnd.randrange(4), micro=False)
+            if rnd.random() < 0.5:
+                kw['boost_error'] = False
+            if rnd.random() < 0.3:
+                kw['version'] = v
+            yield Case(list(parts) + [(content_for(rnd, 1, n), 1)], kw, 'multipart-boundary')
+        made += 1
+
+
+def gen_eci_boundaries(rnd, versions):
+    """byte-mode contents with eci=True in Latin-1 and in other encodings (12 bit ECI header), in this order
+    and in reverse, at both sides of the capacity boundaries"""
+    for v in versions:
+        for e in levels_of(v):
+            seq = []
+            for enc, extra in (('iso-8859-1', 0), ('utf-8', 12), ('latin1', 12), (None, 0), ('shift_jis', 12), ('utf-8', 12), ('iso-8859-1', 0)):
+                nmax = max_chars(v, e, 4, extra)
+                for n in (nmax, nmax + 1):
+                    if n < 1:
+                        continue
+                    kw = dict(error=LEVEL_NAME[e], mask=rnd.randrange(4), micro=False, eci=True, mode='byte', boost_error=rnd.random() < 0.5)
+                    if enc:
+                        kw['encoding'] = enc
+                    text = ''.join(rnd.choice('abcdefghijklmnopqrstuvwxyz') for _ in range(n))
+                    seq.append(Case(text, kw, 'eci-boundary'))
+            if rnd.random() < 0.5:
+                seq.reverse()
+            yield from seq
+
+
 TEXTS = ['Hello World', 'HELLO WORLD', '0123456789', 'ä', 'äöü€', '点茗', '茗荷', 'Märchen', 'ｱｲｳ', '漢字テスト', 'Ωmega',
          '书读百遍其义自现', 'abc\n\tdef', '\x00', 'A', '1', ' ', '$%*+-./:', 'https://example.org/?q=1&b=2', '€uro', 'テスト～', '①']
 ENCODINGS = [None, None, None, 'utf-8', 'iso-8859-1', 'latin1', 'shift_jis', 'iso-8859-15', 'cp1252', 'utf-16-be', 'ascii',
